@@ -49,6 +49,36 @@ type c08Srv struct {
 	rejEvals atomic.Int64 // of those, EVAL/EVALSHA (evidence only: how often the limiter still tried Redis during a fault)
 	errMode  atomic.Bool
 	garbage  atomic.Int32 // answer EVAL with a value the scripts never return
+
+	// silent server: connections are accepted, commands are read, no reply comes
+	// until release() (the blocked commands are then answered with an error and
+	// not executed)
+	silentMu   sync.Mutex
+	silentCh   chan struct{}
+	silentSeen atomic.Int64
+}
+
+func (s *c08Srv) goSilent() {
+	s.silentMu.Lock()
+	if s.silentCh == nil {
+		s.silentCh = make(chan struct{})
+	}
+	s.silentMu.Unlock()
+}
+
+func (s *c08Srv) release() {
+	s.silentMu.Lock()
+	if s.silentCh != nil {
+		close(s.silentCh)
+		s.silentCh = nil
+	}
+	s.silentMu.Unlock()
+}
+
+func (s *c08Srv) silent() chan struct{} {
+	s.silentMu.Lock()
+	defer s.silentMu.Unlock()
+	return s.silentCh
 }
 
 const (
@@ -112,6 +142,15 @@ func (s *c08Srv) install() {
 			}
 			c08Foreign.Store(k, true)
 			return false
+		}
+		if ch := s.silent(); ch != nil {
+			s.silentSeen.Add(1)
+			select {
+			case <-ch:
+			case <-time.After(90 * time.Second): // never leave a server goroutine parked for ever
+			}
+			c.WriteError("ERR c08 silent server released")
+			return true
 		}
 		if s.errMode.Load() {
 			s.rejected.Add(1)
@@ -1089,10 +1128,11 @@ func (x *c08ORun) call(n int64) (granted bool, evals int64) {
 }
 
 // twoSided: a denial by the fallback is judged only for a real outage (server
-// closed; whether error replies count as "unreachable" is left open) and only
+// closed, or accepting connections but never answering; whether error replies
+// count as "unreachable" is left open) and only
 // when the caller clock moves in whole seconds (continuous and whole-second
 // refill coincide there).
-func (x *c08ORun) twoSided() bool { return x.whole && x.fault == "close" }
+func (x *c08ORun) twoSided() bool { return x.whole && (x.fault == "close" || x.fault == "silent") }
 
 // rescue accounts one call answered by the fallback. false = violation recorded.
 func (x *c08ORun) rescue(n int64, granted bool, where string) bool {
@@ -1372,6 +1412,84 @@ func runC08Outage(m *vk.M, idx int, sc c08OScenario) {
 	}
 }
 
+// runC08Silent: the server accepts connections and reads commands but never
+// answers (hung process, black-holed network). The redis client has no timeout
+// setting reachable from the limiter, so the first call blocks for the client's
+// read timeout x attempts (~12 s); the scenario runs beside the others.
+// Verdicts: the usual fallback oracle (one bucket; one-sided bound) and, one
+// refill period of caller time after the outage began, a request for one token
+// must be granted: "keeps limiting with an in-process bucket", not "refuses
+// everything".
+func runC08Silent(m *vk.M, idx int) {
+	r := m.Rand("silent", idx)
+	rate := int64(1 + r.Intn(4))
+	burst := (rate+1)/2 + int64(1+r.Intn(5))
+	sc := c08OScenario{Rate: rate, Burst: burst, Base: 1_600_000_000 + int64(r.Intn(100_000_000))}
+	x := &c08ORun{m: m, idx: idx, sc: sc, key: fmt.Sprintf("c08q%d", idx)}
+	x.desc = fmt.Sprintf("case=%d;{\"fault\":\"silent\",\"rate\":%d,\"burst\":%d}", idx, rate, burst)
+	srv, err := newC08Srv("{" + x.key + "}")
+	if err != nil {
+		m.Inconclusive("miniredis: %v", err)
+		return
+	}
+	defer srv.mr.Close()
+	defer srv.release()
+	x.srv = srv
+	x.tl = NewTokenLimiter(int(rate), int(burst), redis.New(srv.mr.Addr()), x.key)
+	x.clock = time.Unix(sc.Base, 0)
+	x.ref = c08Bucket{rate: rate, burst: burst}
+	x.whole = true
+	x.fault = "none"
+	if !x.up([]c08Call{{N: 1}, {N: 1}}, "before-outage") {
+		return
+	}
+	x.fault = "silent"
+	srv.goSilent()
+	m.Count("outage.fault.silent", 1)
+	refill := ((burst + rate - 1) / rate) * 1000
+	calls := []c08Call{{N: 1}, {Adv: refill, N: 1}, {N: 1}, {N: burst + 1}, {Adv: 1000, N: 1}}
+	for i := 0; i < int(burst)+2; i++ {
+		calls = append(calls, c08Call{N: 1})
+	}
+	var slowest time.Duration
+	for ci, c := range calls {
+		x.advance(c.Adv)
+		var g bool
+		var e int64
+		t0 := time.Now()
+		if !vk.Within(120*time.Second, func() { g, e = x.call(c.N) }) {
+			m.Inconclusive("case %d: AllowN did not return within 120 s against a silent server", idx)
+			return
+		}
+		if d := time.Since(t0); d > slowest {
+			slowest = d
+		}
+		if e < 0 {
+			return
+		}
+		if e != 0 {
+			m.Inconclusive("case %d: server executed an EVAL while silent", idx)
+			return
+		}
+		if !x.rescue(c.N, g, fmt.Sprintf("silent-server call %d", ci)) {
+			return
+		}
+	}
+	m.Max("outage.silent.slowest_call_ms", slowest.Milliseconds())
+	m.Count("outage.silent.commands-left-unanswered", srv.silentSeen.Load())
+	srv.release()
+	if !x.waitReturn() {
+		return
+	}
+	x.resync()
+	if !x.up([]c08Call{{N: 1}, {N: burst}, {N: 1}, {Adv: 1000, N: 1}}, "after-return") {
+		return
+	}
+	m.Case(vk.Digest("silent", rate, burst, x.obs.String()), x.nresc > 0 && x.nredis > 0)
+	m.Sample(map[string]any{"case": idx, "fault": "silent server (accepts, never answers)", "rate": rate, "burst": burst, "fallback_calls": x.nresc,
+		"slowest_call_ms": slowest.Milliseconds(), "trace (g/d redis, G/D fallback, | return)": c08Trunc(x.obs.String(), 120)})
+}
+
 func TestVerifC08TokenOutage(t *testing.T) {
 	m := vk.New(t, "C08", "token limiter across Redis outages (miniredis Close/Restart, error replies): fallback answers consistent with some bucket of the same rate/burst per segment; EVAL seen again within 10 s; agreement with the reference bucket one refill period after the return")
 	defer m.Done()
@@ -1380,6 +1498,16 @@ func TestVerifC08TokenOutage(t *testing.T) {
 	n := vk.N(80, 1600)
 	var wg sync.WaitGroup
 	var next atomic.Int64
+	// silent-server scenarios (each ~12 s of client timeouts) run beside the rest
+	for k, ns := 0, vk.N(1, 4); k < ns; k++ {
+		if idx := 100000 + k; m.Only(idx) {
+			wg.Add(1)
+			go func() {
+				defer wg.Done()
+				runC08Silent(m, idx)
+			}()
+		}
+	}
 	for w := 0; w < workers; w++ {
 		wg.Add(1)
 		go func() {
